@@ -7,6 +7,7 @@ import r_fwd
 import r_live
 import r_own
 import r_type
+import r_paths
 
 STD = "summaries of std functions (min/max/saturating_*, Option combinators, slice::get/index, Vec::split_off, " \
       "IntoIter, Iterator adaptors) are trusted as documented"
@@ -17,7 +18,7 @@ PROPS = {
     "C01": {
         "title": "exactly-once delivery",
         "rules": [r_m1.rule_atom, r_m1.rule_one, r_m1.rule_prov, r_m1.rule_amt, r_m1.rule_clamp, r_m1.rule_endguard,
-                  r_m1.rule_complete, r_m1.rule_ctor, r_ticket.rule_ticket, r_ticket.rule_gate, r_live.rule_amt_pub, r_m1.rule_exact, r_fwd.rule_siblings],
+                  r_m1.rule_complete, r_m1.rule_ctor, r_ticket.rule_ticket, r_ticket.rule_gate, r_live.rule_amt_pub, r_m1.rule_exact, r_fwd.rule_siblings, r_paths.rule_paths],
         "explanation": "Decides that the code is an instance of the fetch_add-interval protocol (DESIGN 1.2, M1/M2): for every "
                        "world (5 implementors + 4 adaptor instantiations) x every pull unit (single, one-shot chunk, buffered) "
                        "the unit is evaluated with crate-local callees inlined; rules: ATOM (who may write the counters; no "
@@ -60,7 +61,7 @@ PROPS = {
     "C04": {
         "title": "one linearizable cursor",
         "rules": [r_m1.rule_one, r_m1.rule_prov, r_m1.rule_atom, r_ticket.rule_ticket, r_ticket.rule_gate, r_live.rule_amt_pub,
-                  r_ticket.rule_ord, r_fwd.rule_fwd, r_m1.rule_endguard],
+                  r_ticket.rule_ord, r_fwd.rule_fwd, r_m1.rule_endguard, r_paths.rule_paths],
         "explanation": "The structural content of linearizability: each pull has exactly one RMW on the position counter inside "
                        "the call (ONE), what it delivers is a function of that RMW's result only (PROV), the counter only grows "
                        "on pull paths and is never stored to by pulls (ATOM), the wrapper serves tickets on equality only and "
@@ -71,7 +72,7 @@ PROPS = {
     "C05": {
         "title": "the end is permanent",
         "rules": [r_m1.rule_atom, r_m1.rule_endguard, r_m1.rule_complete, r_ticket.rule_sticky, r_state.rule_done,
-                  r_ticket.rule_gate, r_state.rule_len],
+                  r_ticket.rule_gate, r_state.rule_len, r_paths.rule_paths],
         "explanation": "ATOM.b: no pull stores to the position counter (it only grows); ENDGUARD: Some only under reserved idx < "
                        "LEN on the index itself with LEN immutable; STICKY: the end flag is only ever stored true; DONE-SET: "
                        "whenever the wrapped iterator returned None the flag is set before the pull returns (the exhausted "
@@ -95,7 +96,7 @@ PROPS = {
     "C07": {
         "title": "exclusive, ordered use of the wrapped iterator; no data races",
         "rules": [r_ticket.rule_ticket, r_ticket.rule_gate, r_ticket.rule_ord, r_ticket.rule_sticky, r_ticket.rule_cell,
-                  r_live.rule_amt_pub],
+                  r_live.rule_amt_pub, r_paths.rule_paths],
         "explanation": "ORD: the load that admits a ticket holder is Acquire or stronger, every RMW that publishes is Release or "
                        "stronger (constants read from the resolved atomic calls through their wrappers), no use of the wrapped "
                        "iterator after the release; TICKET/GATE: the cell is touched only inside a held region entered through "
@@ -121,7 +122,7 @@ PROPS = {
     },
     "C09": {
         "title": "progress",
-        "rules": [r_live.rule_live, r_live.rule_amt_pub, r_ticket.rule_gate, r_state.rule_done, r_live.rule_unw],
+        "rules": [r_live.rule_live, r_live.rule_amt_pub, r_ticket.rule_gate, r_state.rule_done, r_live.rule_unw, r_paths.rule_paths],
         "explanation": "LIVE.a: no function reachable from a pull of a known-size source contains a loop on an atomic load or a "
                        "blocking std call (complete decision of 'never waits'); LIVE.b: wait loops of the wrapper re-read "
                        "now-serving and exit on Equal, Less and the end flag; LIVE.c: from every admission every normal path to "
